@@ -41,7 +41,8 @@ Build(c, sh) ==
               [] d.t = "str" -> StrPat(c, d.w, i)
               [] d.t = "rest" -> RestPat(c, sh.n)
               [] d.t = "sub" -> IF d.k = "match" THEN sh.m ELSE Build(c, Sh(d.k, 0, <<>>, sh.m))
-              [] d.t \in Lists -> [j \in 1..Len(sh.els) |-> Build(c, sh.els[j])]])
+              [] d.t \in Lists -> LET mine == SelectSeq(sh.els, LAMBDA e : (e.k = "nxm") = (d.k = "nxm"))
+                                   IN [j \in 1..Len(mine) |-> Build(c, mine[j])]])
 
 (* ---- matches -------------------------------------------------------------- *)
 ExactTCP == [in_port |-> <<0, 3>>, dl_src |-> <<0, 17, 34, 51, 68, 85>>, dl_dst |-> <<2, 160, 176, 192, 208, 224>>,
@@ -92,7 +93,7 @@ ActKindsOF == {"a_output", "a_set_vlan_vid", "a_set_vlan_pcp", "a_strip_vlan", "
                "a_vendor"}
 ActSeq == <<"a_output", "a_set_vlan_vid", "a_set_vlan_pcp", "a_strip_vlan", "a_set_dl_src", "a_set_dl_dst",
             "a_set_nw_src", "a_set_nw_dst", "a_set_nw_tos", "a_set_tp_src", "a_set_tp_dst", "a_enqueue", "a_vendor">>
-ASh(k) == IF k = "a_vendor" THEN Sn(k, 8) ELSE S0(k)
+ASh(k) == IF k = "a_vendor" THEN Sn(k, 8) ELSE IF k = "a_generic" THEN Sn(k, 4) ELSE S0(k)
 TwoActs == <<ASh("a_set_dl_src"), ASh("a_set_tp_dst")>>
 QSh(props) == Sl("packet_queue", props)
 FSh(m, acts) == Sh("flow_stats", 0, acts, m)
@@ -108,8 +109,9 @@ DefShape(k) ==
     [] k = "srep_table" -> Sl(k, <<S0("table_stats"), S0("table_stats")>>)
     [] k = "srep_port" -> Sl(k, <<S0("port_stats"), S0("port_stats")>>)
     [] k = "srep_queue" -> Sl(k, <<S0("queue_stats"), S0("queue_stats")>>)
-    [] k = "actions" -> Sl(k, [i \in 1..13 |-> ASh(ActSeq[i])])
-    [] k = "props" -> Sl(k, <<S0("qp_min_rate"), S0("qp_none")>>)
+    [] k = "actions" -> Sl(k, [i \in 1..13 |-> ASh(ActSeq[i])] \o <<Sn("a_generic", 12)>>)
+    [] k = "props" -> Sl(k, <<S0("qp_min_rate"), S0("qp_none"), Sn("qp_generic", 4)>>)
+    [] k \in {"sreq_generic", "srep_generic"} -> Sn(k, 5)
     [] OTHER -> S0(k)
 \* base for single-field deviations: class Z must be constructible, so no payload where Z forbids it
 BaseShape(k) == IF k \in {"packet_in", "packet_out"} THEN [DefShape(k) EXCEPT !.n = 0] ELSE DefShape(k)
@@ -177,7 +179,16 @@ Payloads(L) ==
        \cup {C("packet_in/exact-total/" \o ToString(n),
                [Build("P", Sn("packet_in", n)) EXCEPT !.f.total_len = BE(n, 2)]) : n \in L}
        \cup {C("actions/vendor/" \o ToString(n), Build("P", Sl("actions", <<Sn("a_vendor", n)>>))) :
-               n \in {0, 8, 16, 24, 1496}})
+               n \in {0, 8, 16, 24, 1496}}
+       \cup {C("actions/generic/" \o ToString(n), Build(c, Sl("actions", <<Sn("a_generic", n)>>))) :
+               n \in {4, 12, 20, 1492}, c \in {"M", "S", "P"}}
+       \cup {C("props/generic/" \o ToString(n), Build(c, Sl("props", <<Sn("qp_generic", n), S0("qp_min_rate")>>))) :
+               n \in {4, 12, 20}, c \in {"M", "S", "P"}}
+       \cup {C("queue_get_config_reply/generic/" \o ToString(n),
+               Build(c, Sl("queue_get_config_reply", <<QSh(<<Sn("qp_generic", n), S0("qp_min_rate")>>)>>))) :
+               n \in {4, 12}, c \in {"M", "S", "P"}}
+       \cup {C(k \o "/payload/" \o ToString(n), Build(c, Sn(k, n))) :
+               k \in {"sreq_generic", "srep_generic"}, n \in L, c \in {"M", "S", "P"}})
 
 \* list shapes: every sequence of actions up to length 2 (3 in thorough), 0..3 elements elsewhere
 ActLists(n) == UNION {[1..m -> ActKindsOF] : m \in 0..n}
@@ -258,6 +269,116 @@ Modified ==
     Mod("port_mod/mod/hw_addr", sq("port_mod"), <<SetF("hw_addr", Pat("M", 6, 0))>>),
     Mod("set_config/mod/miss_send_len", sq("set_config"), <<SetF("miss_send_len", <<255, 255>>), SetF("flags", <<0, 1>>)>>),
     Mod("hello/mod/xid", sq("hello"), <<SetF("xid", Pat("M", 4, 0))>>) })
+
+(* ---- Nicira ----------------------------------------------------------------- *)
+NxHdr(t) == NxmHeader(BE(t[1], 2), <<t[2]>>, FALSE, t[3])
+Nxm(t, v, m) == SV("nxm", [vendor |-> BE(t[1], 2), field |-> <<t[2]>>, value |-> v, mask |-> m])
+AndBytes(a, b) == [i \in 1..Len(a) |-> a[i] & b[i]]
+\* masks: H = leading half, L = last bit, N = first bit, T = a few low bits of each byte
+MaskPat(c, w) ==
+  CASE c = "H" -> [i \in 1..w |-> IF 2 * i <= w + 1 THEN 255 ELSE 0]
+    [] c = "L" -> [i \in 1..w |-> IF i = w THEN 1 ELSE 0]
+    [] c = "N" -> [i \in 1..w |-> IF i = 1 THEN 128 ELSE 0]
+    [] c = "T" -> [i \in 1..w |-> 15]
+    [] c = "0" -> Zeros(w)
+NxmEntries ==
+  {Nxm(t, Pat(c, t[3], 2), <<>>) : t \in NxmFields, c \in {"Z", "M", "S", "P"}}
+  \cup {Nxm(t, AndBytes(Pat(c, t[3], 2), MaskPat(m, t[3])), MaskPat(m, t[3])) :
+          t \in {x \in NxmFields : <<x[1], x[2]>> \in NxmMaskable}, c \in {"M", "P"}, m \in {"H", "L", "N", "T", "0"}}
+NSh(e) == Sh("nxm", 0, <<>>, e)
+SomeNxm == <<Nxm(<<0, 0, 2>>, <<0, 7>>, <<>>), Nxm(<<0, 3, 2>>, <<8, 0>>, <<>>),
+             Nxm(<<0, 7, 4>>, <<10, 1, 0, 0>>, <<255, 255, 0, 0>>), Nxm(<<0, 6, 1>>, <<6>>, <<>>),
+             Nxm(<<0, 10, 2>>, <<0, 80>>, <<>>), Nxm(<<1, 0, 4>>, <<0, 0, 0, 5>>, <<0, 0, 0, 255>>),
+             Nxm(<<1, 16, 8>>, Pat("P", 8, 1), <<>>), Nxm(<<1, 19, 16>>, Pat("P", 16, 1), <<>>),
+             Nxm(<<0, 1, 6>>, <<1, 0, 0, 0, 0, 0>>, <<1, 0, 0, 0, 0, 0>>)>>
+NxmPrefix(n) == [i \in 1..n |-> NSh(SomeNxm[i])]
+MSh(s) == Sh("fms", 0, <<>>, s)
+Fms(src, dst, nb, sv, dv) == SV("fms", [src |-> <<src>>, dst |-> <<dst>>, n_bits |-> BE(nb, 2), srcv |-> sv, dstv |-> dv])
+FieldRef(t, ofs) == NxHdr(t) \o BE(ofs, 2)
+SomeFms == <<Fms(0, 0, 12, FieldRef(<<0, 4, 2>>, 0), FieldRef(<<0, 4, 2>>, 0)),          \* VLAN_TCI[0..11] -> match
+             Fms(0, 0, 48, FieldRef(<<0, 2, 6>>, 0), FieldRef(<<0, 1, 6>>, 0)),          \* ETH_SRC -> match ETH_DST
+             Fms(0, 2, 16, FieldRef(<<0, 0, 2>>, 0), <<>>),                              \* IN_PORT -> output
+             Fms(0, 1, 32, FieldRef(<<1, 1, 4>>, 0), FieldRef(<<1, 2, 4>>, 0)),          \* REG1 -> load REG2
+             Fms(1, 0, 16, <<8, 0>>, FieldRef(<<0, 3, 2>>, 0)),                          \* immediate 0x0800 -> match ETH_TYPE
+             Fms(1, 1, 17, <<0, 1, 255, 255>>, FieldRef(<<1, 3, 4>>, 3)),                \* immediate (17 bits) -> load REG3[3..19]
+             Fms(1, 0, 8, <<0, 6>>, FieldRef(<<0, 6, 1>>, 0)),
+             Fms(0, 1, 5, FieldRef(<<1, 16, 8>>, 40), FieldRef(<<1, 0, 4>>, 27))>>
+FmsPrefix(n) == [i \in 1..n |-> MSh(SomeFms[i])]
+NXMsgKinds == DOMAIN NXMsgLayout
+NXActKinds == DOMAIN NXActionLayout
+DefShapeNX(k) ==
+  CASE k = "nx_flow_mod" -> Sl(k, NxmPrefix(3) \o TwoActs)
+    [] k = "nxt_packet_in" -> Sh(k, 5, NxmPrefix(2), AllWild)
+    [] k = "nx_ofp_flow_mod_table_id" -> Sh(k, 0, TwoActs, TCPMatch)
+    [] k = "nxa_learn" -> Sl(k, FmsPrefix(3))
+    [] k \in {"nxa_bundle", "nxa_bundle_load"} -> Sl(k, <<S0("u16"), S0("u16"), S0("u16")>>)
+    [] k = "nxmatch" -> Sl(k, NxmPrefix(4))
+    [] OTHER -> S0(k)
+\* fields that are NXM headers / fixed by the library get a legal value whatever the class
+FixNX(sv) ==
+  LET h1 == NxHdr(<<1, 1, 4>>)
+      h2 == NxHdr(<<1, 16, 8>>)
+  IN CASE sv.k = "nxa_reg_move" -> [sv EXCEPT !.f.src = h1, !.f.dst = h2]
+       [] sv.k = "nxa_reg_load" -> [sv EXCEPT !.f.dst = h2]
+       [] sv.k = "nxa_output_reg" -> [sv EXCEPT !.f.reg = h1]
+       [] sv.k = "nxa_bundle" -> [sv EXCEPT !.f.slave_type = NxHdr(<<0, 0, 2>>), !.f.dst = Zeros(4), !.f.ofs_nbits = Zeros(2)]
+       [] sv.k = "nxa_bundle_load" -> [sv EXCEPT !.f.slave_type = NxHdr(<<0, 0, 2>>), !.f.dst = h1]
+       [] sv.k = "nx_flow_mod_table_id" -> [sv EXCEPT !.f.enable = <<IF sv.f.enable = <<0>> THEN 0 ELSE 1>>]
+       [] sv.k = "nxt_packet_in" -> IF Num2(sv.f.total_len, 1) < Len(sv.f.data)
+                                    THEN [sv EXCEPT !.f.total_len = BE(Len(sv.f.data), 2)] ELSE sv
+       [] OTHER -> sv
+TopKindsNX == NXMsgKinds \cup NXActKinds \cup {"nxmatch"}
+NXUniform(K) == Good({C(k \o "/uniform/" \o c, FixNX(Build(c, DefShapeNX(k)))) : k \in K, c \in Classes}
+                     \cup {C(k \o "/empty/" \o c, FixNX(Build(c, S0(k)))) : k \in K, c \in {"Z", "P"}})
+NXDeviations(K) ==
+  Good(UNION {LET b == FixNX(Build("Z", DefShapeNX(k))) IN
+              {C(k \o "/dev/" \o PathTag(p) \o "/" \o c, FixNX(Put(b, p, "set", DevValue(b, p, c)))) :
+                 p \in ScalarPaths(b), c \in DevClasses} : k \in K})
+\* every NXM field, alone in a match, with and without mask
+NXEntries == Good({C("nxmatch/entry", SV("nxmatch", [match |-> <<e>>])) : e \in NxmEntries})
+\* every NXM field as the register operand of the register actions
+NXRegs ==
+  Good({C("nxa_reg_load/dst", [FixNX(Build("P", S0("nxa_reg_load"))) EXCEPT !.f.dst = NxHdr(t)]) : t \in NxmFields}
+       \cup {C("nxa_reg_move/src+dst", [FixNX(Build("P", S0("nxa_reg_move"))) EXCEPT !.f.src = NxHdr(t), !.f.dst = NxHdr(t)]) :
+               t \in NxmFields}
+       \cup {C("nxa_output_reg/reg", [FixNX(Build("P", S0("nxa_output_reg"))) EXCEPT !.f.reg = NxHdr(t)]) : t \in NxmFields})
+\* match lengths (padding to 8), learn spec chains, bundle slave counts, packet-in payloads
+NXShapes(N) ==
+  Good(UNION {{C("nx_flow_mod/match/" \o ToString(n), Build("P", Sl("nx_flow_mod", NxmPrefix(n) \o TwoActs))),
+               C("nx_flow_mod/match-only/" \o ToString(n), Build("M", Sl("nx_flow_mod", NxmPrefix(n)))),
+               C("nxt_packet_in/match/" \o ToString(n), FixNX(Build("P", Sh("nxt_packet_in", n, NxmPrefix(n), AllWild)))),
+               C("nxmatch/entries/" \o ToString(n), Build("P", Sl("nxmatch", NxmPrefix(n))))} : n \in 0..9}
+       \cup UNION {{C("nxa_learn/spec/" \o ToString(n), Build("P", Sl("nxa_learn", FmsPrefix(n)))),
+                    C("nxa_learn/spec1/" \o ToString(n), Build("M", Sl("nxa_learn", IF n = 0 THEN <<>> ELSE <<MSh(SomeFms[n])>>)))} :
+                     n \in 0..8}
+       \cup UNION {{C("nxa_bundle/slaves/" \o ToString(n), FixNX(Build("P", Sl("nxa_bundle", Rep(S0("u16"), n))))),
+                    C("nxa_bundle_load/slaves/" \o ToString(n), FixNX(Build("P", Sl("nxa_bundle_load", Rep(S0("u16"), n)))))} :
+                     n \in N}
+       \cup {C("nxt_packet_in/payload/" \o ToString(n), FixNX(Build("P", Sh("nxt_packet_in", n, NxmPrefix(1), AllWild)))) :
+               n \in {0, 1, 2, 7, 8, 1500}})
+NXPairs(K) ==
+  Good(UNION {LET b == FixNX(Build("Z", DefShapeNX(k))) IN
+              {C(k \o "/pair/" \o xy[1] \o "+" \o xy[2],
+                 FixNX(Put(Put(b, <<Step(xy[1], 0)>>, "set", DevValue(b, <<Step(xy[1], 0)>>, "P")),
+                           <<Step(xy[2], 0)>>, "set", DevValue(b, <<Step(xy[2], 0)>>, "M")))) :
+                 xy \in {p \in TopScalars(k) \X TopScalars(k) : p[1] # p[2]}} : k \in K})
+NXEntriesT ==
+  Good({C("nxmatch/entry", SV("nxmatch", [match |-> <<e>>])) : e \in
+          {Nxm(t, Pat(c, t[3], 5), <<>>) : t \in NxmFields, c \in Classes}
+          \cup {Nxm(t, AndBytes(Pat(c, t[3], 5), MaskPat(m, t[3])), MaskPat(m, t[3])) :
+                  t \in {x \in NxmFields : <<x[1], x[2]>> \in NxmMaskable}, c \in {"M", "S", "Q", "P"},
+                  m \in {"H", "L", "N", "T", "0"}}})
+NXModified ==
+  LET fm == Build("P", DefShapeNX("nx_flow_mod"))
+      le == Build("P", DefShapeNX("nxa_learn"))
+  IN Good({
+    Mod("nx_flow_mod/mod/actions+", fm, <<App("actions", OneAct)>>),
+    Mod("nx_flow_mod/mod/match+", fm, <<App("match", SomeNxm[5])>>),
+    Mod("nx_flow_mod/mod/cookie", fm, <<SetF("cookie", Pat("M", 8, 0))>>),
+    Mod("nxa_learn/mod/spec+", le, <<App("spec", SomeFms[4])>>),
+    Mod("nxa_learn/mod/priority", le, <<SetF("priority", <<0, 1>>)>>),
+    Mod("nx_role_request/mod/role", Build("Z", S0("nx_role_request")), <<SetF("role", <<0, 0, 0, 2>>)>>),
+    Mod("nxa_set_tunnel/mod/tun_id", Build("Z", S0("nxa_set_tunnel")), <<SetF("tun_id", <<0, 0, 0, 2>>)>>) })
 
 (* The alphabets of the TLC runs are defined in the MC_<run>.tla modules      *)
 (* (generated by harness/c01_gencfg.py): TLC evaluates every constant         *)
